@@ -77,19 +77,26 @@ func runSweeperSim(env *RunEnv) {
 			}
 			runLeft := 0
 			var runTS time.Time
+			// headers with extension blocks (header_extra_padding_block, or
+			// written by other software): the marker flag sits in the same
+			// place, the value is just longer than 24 bytes
+			extN := 0
+			if t.Choose("sw-padded", 3) == 2 {
+				extN = 1 + t.Choose("sw-extn", 2)
+			}
 			for i := 0; i < sp.n; i++ {
 				key := []byte(fmt.Sprintf("k%06d", i*3))
 				var val []byte
 				if runLeft > 0 {
 					runLeft--
-					val = MakeHdr(uint64(runTS.UnixNano()), 7, 1, 0, nil)
+					val = MakeHdr(uint64(runTS.UnixNano()), 7, 1, extN, nil)
 				} else if t.Chance("sw-marker", 400) {
 					runTS = lattice[t.Choose("sw-ts", len(lattice))]
 					runLeft = t.Choose("sw-runlen", markerRun)
-					val = MakeHdr(uint64(runTS.UnixNano()), 7, 1, 0, nil)
+					val = MakeHdr(uint64(runTS.UnixNano()), 7, 1, extN, nil)
 				} else {
 					ts := lattice[t.Choose("sw-ts", len(lattice))]
-					val = MakeHdr(uint64(ts.UnixNano()), 7, 0, 0, []byte(fmt.Sprintf("v%d", i)))
+					val = MakeHdr(uint64(ts.UnixNano()), 7, 0, extN, []byte(fmt.Sprintf("v%d", i)))
 					if sp.app != "" {
 						if err := txn.Put(ad, key, []byte(fmt.Sprintf("v%d", i)), 0); err != nil {
 							return err
